@@ -111,7 +111,8 @@ def main(argv):
         write_evidence(pid, tier, seed, {"obligations": 1, "discharged": 0, "checker_cmd": "coqc", "trusted_base": [],
                                          "explanation": "implementation did not build"}, time.time() - t0, 1, [])
         return 1
-    ensure_oracle()
+    for n in getattr(mod, 'ORACLES', ['block']):
+        ensure_oracle(n)
 
     # 3. cases
     if replay:
